@@ -343,6 +343,12 @@ _tg, _te = _thr.make(T_CALLS, ['geodepy/constants.py'], 'Transformation:threads'
                      quick=['add_itrf05_2030', 'add_itrf14_08_1985', 'add_apm_2000', 'neg_itrf08'], triple=('add_itrf05_2030', 'add_apm_2000', 'neg_itrf97'))
 
 
+from gpmc import callforms as _cf
+
+
+from gpmc import interp as _ip
+
+
 SUBCHECKS = [
     Sub('labels', gen_labels, ev_labels, chunk=500, floor=100, parallel=False, guard=True),
     Sub('reverse', gen_reverse, ev_reverse, chunk=500, floor=50, parallel=False, guard=True),
@@ -350,6 +356,8 @@ SUBCHECKS = [
     Sub('iers', gen_iers, ev_iers, chunk=500, floor=100, parallel=False, guard=True),
     Sub('algebra', gen_algebra, ev_algebra, chunk=4, floor=90, guard=True, envs=2),
     Sub('threads', _tg, _te, chunk=1, floor=3, poison=False, fresh=True, timeout=3600),
+    Sub('callforms', *_cf.make('C11', 'constants'), chunk=1, floor=1, guard=True),
+    Sub('interpreter', *_ip.make('C11', 'constants'), chunk=1, floor=5, poison=False),
 ]
 
 
